@@ -8,9 +8,14 @@ for d in sorted(glob.glob('/verif/seeded/*/')):
     except Exception: continue
     rows.append((name,m))
 def order(n):
-    k=0 if n.startswith('S-') else 1 if n.startswith('S2-') else 2 if n.startswith('S3-') else 3
+    k=9
+    for i,pre in enumerate(['S-','S2-','S3-','S4-','S5-','S6-','S7-','S8-']):
+        if n.startswith(pre): k=i
     return (k,n)
 print("| seeded change | breaks | needs in order to manifest | caught by | silent / missed |")
 print("|---|---|---|---|---|")
 for name,m in sorted(rows,key=lambda r:order(r[0])):
-    print("| %s | %s | %s | %s | %s |"%(name,m['breaks_property'],m['needs_to_manifest'].replace('|','/'),'; '.join(m['caught_by']).replace('|','/'),'; '.join(m['not_caught_by']).replace('|','/')))
+    caught='; '.join(m['caught_by']).replace('|','/')
+    if m.get('note'):
+        caught=(caught+' - ' if caught else '')+m['note'].replace('|','/')
+    print("| %s | %s | %s | %s | %s |"%(name,m['breaks_property'],m['needs_to_manifest'].replace('|','/'),caught,'; '.join(m['not_caught_by']).replace('|','/')))
